@@ -75,6 +75,16 @@ def answerOf (j : Json) : Except String Answer :=
 def handlersOf (j : Json) : Except String (List Text) := do
   (← getArr j "handlers").toList.mapM textOfJson
 
+def regOpOf (j : Json) : Except String RegOp := do
+  match ← getStr j "op" with
+  | "reg" => pure (.register (← getText j "m") (← getNat j "h"))
+  | "unreg" => pure (.unregister (← getText j "m"))
+  | k => throw s!"registration op {k}"
+
+def taggedJson : Ev × Option Nat → Json
+  | (.handled n, some h) => Json.mkObj [("h", notifOut n), ("by", h)]
+  | (e, _) => evJson e
+
 def handle (op : String) (j : Json) : Except String Json := do
   match op with
   | "params" =>
@@ -91,6 +101,11 @@ def handle (op : String) (j : Json) : Except String Json := do
   | "call" =>
     let es ← (← getArr j "emits").toList.mapM emitOf
     pure (traceJson (call facts (← getBool j "sse") (← handlersOf j) (← getNat j "reqId") es (← answerOf (← j.getObjVal? "answer"))))
+  | "hcall" =>
+    let hist ← (← getArr j "history").toList.mapM regOpOf
+    let es ← (← getArr j "emits").toList.mapM emitOf
+    let tr := callH facts (← getBool j "sse") (tableAfter hist) (← getNat j "reqId") es (← answerOf (← j.getObjVal? "answer"))
+    pure (Json.mkObj [("trace", Json.arr (tr.map taggedJson).toArray)])
   | "frames" =>
     let es ← (← getArr j "emits").toList.mapM emitOf
     let a ← answerOf (← j.getObjVal? "answer")
